@@ -3,6 +3,7 @@ package c19
 
 import (
 	"encoding/json"
+	"flag"
 	"fmt"
 	"os"
 	"path/filepath"
@@ -17,7 +18,11 @@ import (
 	"github.com/gardenbed/emerge/internal/vh/rec"
 )
 
-func TestMain(m *testing.M) { rec.Main(m, "C19") }
+func TestMain(m *testing.M) {
+	rec.Init("C19")
+	_ = flag.Set("rapid.shrinktime", "20s") // every shrink attempt compiles a batch
+	rec.Run(m)
+}
 
 const rule = "accepted specifications (keyword/identifier overlaps, tokens named WS/EOL/COMMENT, whitespace matched by no token / by a skipped token / by a reported token, multi-byte tokens) x input texts (token sequences with random separators, " +
 	"near misses, invalid continuations, multi-byte characters) x padding that moves tokens across the 4096-byte halves of the emitted reader x with/without final newline x short reads; the emitted package is compiled and run; " +
@@ -307,6 +312,13 @@ func classify(p *prepared, text string) (bool, []string) {
 	return len(text) > 4096 || multi || skipped, cls
 }
 
+func head(s string) string {
+	if len(s) > 200 {
+		return s[:200] + "..."
+	}
+	return s
+}
+
 type caseT struct {
 	p     *prepared
 	text  string
@@ -348,10 +360,18 @@ func runBatch(ps []*prepared, cases []caseT) (failed *caseT, err error) {
 	}
 	raw, err := emit.Run(bin, jobs)
 	if err != nil {
-		// a crash of the driver: find the case by running them one by one
+		// a crash or a hang of the driver: find the case by running them one by one
 		for i := range cases {
-			if _, e1 := emit.Run(bin, jobs[i:i+1]); e1 != nil {
-				return &cases[i], fmt.Errorf("the emitted lexer crashes: %v\ninput: %q\nspecification:\n%s", e1, cases[i].text, cases[i].p.src)
+			_, e1 := emit.Run(bin, jobs[i:i+1])
+			if e1 == emit.ErrTimeout {
+				// a single small input that normally takes milliseconds: try once more before calling it non-termination
+				_, e1 = emit.Run(bin, jobs[i:i+1])
+			}
+			if e1 == emit.ErrTimeout {
+				return &cases[i], fmt.Errorf("the emitted lexer does not reach the end of this input (no result within 2 x 20 s; such an input takes milliseconds)\ninput of %d bytes: %q\nspecification:\n%s", len(cases[i].text), head(cases[i].text), cases[i].p.src)
+			}
+			if e1 != nil {
+				return &cases[i], fmt.Errorf("the emitted lexer crashes: %v\ninput: %q\nspecification:\n%s", e1, head(cases[i].text), cases[i].p.src)
 			}
 		}
 		return nil, err
